@@ -233,6 +233,18 @@ KNOWN_SIGS = {'struct_parse': ['struct', 'stream', 'stream_pos'], 'parse_cstring
               'elf_assert': ['cond', 'msg'], 'dwarf_assert': ['cond', 'msg'], 'roundup': ['num', 'bits']}
 
 
+def _terminates(body):
+    """every path through the statement list leaves the enclosing block (return / raise / continue / break)"""
+    if not body:
+        return False
+    last = body[-1]
+    if isinstance(last, (ast.Return, ast.Raise, ast.Continue, ast.Break)):
+        return True
+    if isinstance(last, ast.If):
+        return bool(last.orelse) and _terminates(last.body) and _terminates(last.orelse)
+    return False
+
+
 class _Norm(ast.NodeTransformer):
     def __init__(self, counts):
         self.counts = counts     # name -> (stores, loads) in the enclosing outermost function
@@ -310,6 +322,20 @@ class _Norm(ast.NodeTransformer):
         i = 0
         while i < len(stmts):
             st = stmts[i]
+            # N9: early exit -> else.  `if c: ...return/raise/continue/break` followed by more statements is the same as
+            # putting those statements in the else arm; the nested form is canonical (dispatch chains become if/elif chains)
+            if isinstance(st, ast.If) and i + 1 < len(stmts) and _terminates(st.body):
+                tail = st
+                while tail.orelse:
+                    if len(tail.orelse) == 1 and isinstance(tail.orelse[0], ast.If) and _terminates(tail.orelse[0].body):
+                        tail = tail.orelse[0]
+                    else:
+                        tail = None
+                        break
+                if tail is not None:
+                    tail.orelse = self._block(stmts[i + 1:])
+                    out.append(st)
+                    return out
             nxt = stmts[i + 1] if i + 1 < len(stmts) else None
             if isinstance(st, ast.Assign) and len(st.targets) == 1 and isinstance(st.targets[0], ast.Name) and isinstance(nxt, ast.Return) and \
                     isinstance(nxt.value, ast.Name) and nxt.value.id == st.targets[0].id and self.counts.get(st.targets[0].id) == (1, 1):
